@@ -28,6 +28,7 @@ package frame
 //@   ensures wf [C02,C13]: result1 == nil ==> result0 != nil && result0.data != nil && len(result0.data) == len(data) && base(result0.data) == base(data) && off(result0.data) == off(data)
 //@   ensures err-nil-frame: result1 != nil ==> result0 == nil
 //@   ensures fresh-fields [C17]: result1 == nil ==> result0.recvLink == nil && !result0.src.IsValid() && !result0.dst.IsValid() && result0.builder == b
+//@   ensures replyable [C13]: result1 == nil ==> result0.dblReturnCheck == 0 && len(result0.pooledSlice) == len(pooledSlice) && cap(result0.pooledSlice) == cap(pooledSlice) && off(result0.pooledSlice) == off(pooledSlice) && base(result0.pooledSlice) == base(pooledSlice)
 
 //@ pred zeroed(s []byte) = forall i int :: 0 <= i && i < cap(s) ==> s[0:cap(s)][i] == 0
 
@@ -233,3 +234,4 @@ package frame
 //@   requires b != nil && 0 <= dataOffset && dataOffset <= 65536
 //@   requires pooledSlice != nil ==> base(data) == base(pooledSlice) && dataOffset >= 0 && off(data) == off(pooledSlice) + dataOffset && len(pooledSlice) == cap(pooledSlice) && off(pooledSlice) == 0 && dataOffset + cap(data) <= len(pooledSlice)
 //@   ensures frame [C02,C13]: result1 == nil ==> nonnil(result0) && result0.data != nil && len(result0.data) == len(data) && base(result0.data) == base(data) && off(result0.data) == off(data) && result0.recvLink == nil
+//@   ensures replyable [C13]: result1 == nil ==> result0.builder == b && result0.dblReturnCheck == 0 && (result0.pooledSlice != nil ==> cap(result0.pooledSlice) == len(result0.pooledSlice) && off(result0.pooledSlice) == 0)
